@@ -460,26 +460,30 @@ def check_c12(job):
                 # the user has typed `prefix` on a fresh statement line of that scope
                 line = t["line"]
                 ind = len(docs[t["file"]].lines[line]) - len(docs[t["file"]].lines[line].lstrip())
-                text = " " * ind + prefix
-                adapter.notify(s, c, "textDocument/didChange", {"textDocument": {"uri": adapter.uri(d, t["file"])}, "contentChanges": [
-                    {"range": {"start": {"line": line, "character": 0}, "end": {"line": line, "character": 0}}, "text": text + "\n"}]})
-                r = adapter.result_of(adapter.request(s, c, "textDocument/completion", adapter.posparams(d, t["file"], line, len(text))))
-                adapter.notify(s, c, "textDocument/didChange", {"textDocument": {"uri": adapter.uri(d, t["file"])}, "contentChanges": [
-                    {"range": {"start": {"line": line, "character": 0}, "end": {"line": line + 1, "character": 0}}, "text": ""}]})
-                items = r.get("items", r) if isinstance(r, dict) else (r or [])
-                if isinstance(r, dict) and "__error__" in r:
-                    bad.append(({"c12:error"}, {"site": site, "prefix": prefix, "error": r}))
-                    continue
-                labels = {str(i.get("label", "")).lower() for i in items if isinstance(i, dict)}
-                want = {n for n in ("x", "y", "lx") if n.startswith(prefix) and len(res[(site, n)]) >= 1}
-                forbid = {n for n in ("x", "y", "lx") if n.startswith(prefix) and len(res[(site, n)]) == 0}
-                noprefix = {l for l in labels if l in ("x", "y", "lx") and not l.startswith(prefix)}
-                if want - labels:
-                    bad.append(({"c12:accessibleNotOffered", "site:" + site, "name:" + sorted(want - labels)[0]}, {"site": site, "prefix": prefix, "missing": sorted(want - labels), "labels": sorted(labels)[:40]}))
-                if forbid & labels:
-                    bad.append(({"c12:inaccessibleOffered", "site:" + site, "name:" + sorted(forbid & labels)[0]}, {"site": site, "prefix": prefix, "offered": sorted(forbid & labels)}))
-                if noprefix:
-                    bad.append(({"c12:prefixIgnored", "site:" + site}, {"site": site, "prefix": prefix, "offered": sorted(noprefix)}))
+                # the same executable-statement context in three spellings: the bare prefix, and the right-hand side of an
+                # assignment to a variable whose name begins with a keyword (END..., IMPORT...)
+                for form, lead in (("bare", ""), ("rhsOfEndName", "end_value = "), ("rhsOfImportName", "important = ")):
+                    ftag = set() if form == "bare" else {"form:" + form}
+                    text = " " * ind + lead + prefix
+                    adapter.notify(s, c, "textDocument/didChange", {"textDocument": {"uri": adapter.uri(d, t["file"])}, "contentChanges": [
+                        {"range": {"start": {"line": line, "character": 0}, "end": {"line": line, "character": 0}}, "text": text + "\n"}]})
+                    r = adapter.result_of(adapter.request(s, c, "textDocument/completion", adapter.posparams(d, t["file"], line, len(text))))
+                    adapter.notify(s, c, "textDocument/didChange", {"textDocument": {"uri": adapter.uri(d, t["file"])}, "contentChanges": [
+                        {"range": {"start": {"line": line, "character": 0}, "end": {"line": line + 1, "character": 0}}, "text": ""}]})
+                    items = r.get("items", r) if isinstance(r, dict) else (r or [])
+                    if isinstance(r, dict) and "__error__" in r:
+                        bad.append(({"c12:error"} | ftag, {"site": site, "prefix": prefix, "typed": text, "error": r}))
+                        continue
+                    labels = {str(i.get("label", "")).lower() for i in items if isinstance(i, dict)}
+                    want = {n for n in ("x", "y", "lx") if n.startswith(prefix) and len(res[(site, n)]) >= 1}
+                    forbid = {n for n in ("x", "y", "lx") if n.startswith(prefix) and len(res[(site, n)]) == 0}
+                    noprefix = {l for l in labels if l in ("x", "y", "lx") and not l.startswith(prefix)}
+                    if want - labels:
+                        bad.append(({"c12:accessibleNotOffered", "site:" + site, "name:" + sorted(want - labels)[0]} | ftag, {"site": site, "prefix": prefix, "typed": text, "missing": sorted(want - labels), "labels": sorted(labels)[:40]}))
+                    if forbid & labels:
+                        bad.append(({"c12:inaccessibleOffered", "site:" + site, "name:" + sorted(forbid & labels)[0]} | ftag, {"site": site, "prefix": prefix, "typed": text, "offered": sorted(forbid & labels)}))
+                    if noprefix:
+                        bad.append(({"c12:prefixIgnored", "site:" + site} | ftag, {"site": site, "typed": text, "prefix": prefix, "offered": sorted(noprefix)}))
         # restricting contexts: USE, USE ..., ONLY:, CALL - typed on a fresh line of the program / of m2's procedure
         ctx = st["ctx"]
         names = ("x", "y", "lx")
@@ -507,14 +511,17 @@ def check_c12(job):
                     bad.append(({"c12:onlyContext", "module:" + mod} | ({"missing"} if want - labels else set()) | ({"extra"} if labels - want else set()),
                                 {"module": mod, "prefix": pre, "expected": sorted(want), "labels": sorted(labels)[:30]}))
         for pre in ("q", "s", "x", "l"):
-            labels = complete("p.f90", exec_line, "  call " + pre)
-            want = {n for n in ctx["callP"] if n.startswith(pre)}
-            vars_offered = labels & set(names)
-            if not want <= labels or vars_offered:
-                bad.append(({"c12:callContext", "site:p"} | ({"missing"} if want - labels else set()) | ({"variableOffered"} if vars_offered else set()),
-                            {"prefix": pre, "expected_callables": sorted(want), "labels": sorted(labels)[:30]}))
-            if "s2" in labels and "s2" not in ctx["callP"]:
-                bad.append(({"c12:callContext", "site:p", "inaccessibleCallableOffered"}, {"prefix": pre, "labels": sorted(labels)[:30]}))
+            # CALL as the first token, as the action of a logical IF, and behind a ";"
+            for cform, lead in (("first", "  call "), ("afterIf", "  if (.true.) call "), ("afterSemicolon", "  continue; call ")):
+                labels = complete("p.f90", exec_line, lead + pre)
+                want = {n for n in ctx["callP"] if n.startswith(pre)}
+                vars_offered = labels & set(names)
+                ctag = set() if cform == "first" else {"call:" + cform}
+                if not want <= labels or vars_offered:
+                    bad.append(({"c12:callContext", "site:p"} | ctag | ({"missing"} if want - labels else set()) | ({"variableOffered"} if vars_offered else set()),
+                                {"prefix": pre, "typed": lead + pre, "expected_callables": sorted(want), "labels": sorted(labels)[:30]}))
+                if "s2" in labels and "s2" not in ctx["callP"]:
+                    bad.append(({"c12:callContext", "site:p", "inaccessibleCallableOffered"} | ctag, {"prefix": pre, "labels": sorted(labels)[:30]}))
     finally:
         adapter.rmws(d)
     return [(t, dict(x, files=files)) for t, x in bad]
